@@ -596,6 +596,20 @@ fn judge(sc: &Scenario, r: &RunResult, line: &str, out: &mut Out) {
                 out.violation("C09", format!("{nreq} simultaneous unit requests, burst {b}: {admitted} admitted, want {}", nreq.min(b)), replay.clone());
             }
         }
+        "inversion" => {
+            // witness of the known finding C09-stamp-inversion: three unit requests on one fresh key, burst 2, stamped
+            // 20, 10 and 0 ns after a base instant by three clients (each transport stamps before it queues).  Whenever
+            // the limiter happens to process the latest-stamped one first, the two stamped earlier are refused the second
+            // token of the burst (denied, wait of nanoseconds): 1 admitted where min(3, 2) = 2 is wanted.  The answers
+            // still equal those of one limiter fed the same stamped requests in processing order (the model line agrees).
+            let admitted = r.procs.iter().filter(|p| p.2.starts_with("ok,1")).count() as i64;
+            if r.cancels.is_empty() && r.procs.len() == 3 && admitted < 2 {
+                out.violation("KNOWN-C09-stamp-inversion", format!("3 unit requests on a fresh key, burst 2, 1 per 86400 s, stamped 20 / 10 / 0 ns after the same instant, processed latest-stamped first: {admitted} admitted, min(3, 2) = 2 wanted"), replay.clone());
+            }
+            if admitted > 2 {
+                out.violation("C09", format!("3 unit requests on a fresh key with burst 2: {admitted} admitted"), replay.clone());
+            }
+        }
         "family" => {
             // distinct keys have independent budgets: with equal timestamps (no refill) every key admits
             // min(number of unit requests on it, burst), whatever the keys have in common
@@ -769,6 +783,24 @@ pub fn run(seed: u64, n: usize, out: &mut Out) {
         out.bump(&format!("random_{}", sc.kind));
         if out.samples.len() < 3 && line.len() < 600 {
             out.sample(line.clone());
+        }
+    }
+    // --- the witness of known finding C09-stamp-inversion (see `judge`): a handful of random schedules of one fixed shape
+    {
+        let base = base_ts(&mut rng);
+        let sc = Scenario {
+            cap: 4,
+            store: StoreCfg::Periodic { interval_ns: 60_000_000_000 },
+            programs: (0..3).map(|ci| vec![Req { key: "inversion".into(), b: 2, c: 1, p: 86400, q: 1, ts: base + (2 - ci as i64) * 10 }]).collect(),
+            probe: None,
+            kind: "inversion",
+        };
+        for _ in 0..24 {
+            let mut r2 = rng.fork();
+            let r = execute(&sc, Policy::Random(&mut r2, 0), 0);
+            let line = emit(&sc, &r, out, &mut seen);
+            judge(&sc, &r, &line, out);
+            out.bump("inversion_witness_schedules");
         }
     }
     // --- families of distinct LONG keys sharing a long prefix (C09: one bucket per key, whatever its length)
